@@ -247,6 +247,10 @@ func runC04Enum(src sim.Source, o Opts, res *Result) {
 				t1fail = fmt.Sprintf("Delete on a read-only transaction returned %v", err)
 			} else if err := ro.Truncate(); !errors.Is(err, fox.ErrReadOnlyTxn) {
 				t1fail = fmt.Sprintf("Truncate on a read-only transaction returned %v", err)
+			} else if _, err := ro.Handle("GET", "/zz/{", nil); !errors.Is(err, fox.ErrReadOnlyTxn) {
+				t1fail = fmt.Sprintf("Handle with invalid arguments on a read-only transaction returned %v, want ErrReadOnlyTxn", err)
+			} else if _, err := ro.Update("GET", "zz", nil); !errors.Is(err, fox.ErrReadOnlyTxn) {
+				t1fail = fmt.Sprintf("Update with invalid arguments on a read-only transaction returned %v, want ErrReadOnlyTxn", err)
 			}
 			ro.Commit()
 			ro.Abort()
@@ -335,6 +339,9 @@ func checkSettled(txn *fox.Txn, pool []*model.Pattern) string {
 		{"Lookup", func() { txn.Lookup(world.NewRW(world.NewConn()), world.NewRequest("GET", "", "/a", "", "", nil)) }},
 		{"Iter", func() { txn.Iter() }},
 		{"Len", func() { txn.Len() }},
+		{"Handle with a nil handler", func() { txn.Handle("GET", pat, nil) }},
+		{"Handle with a malformed pattern", func() { txn.Handle("GET", "/zz/{", world.Handler(0)) }},
+		{"Update with a malformed pattern", func() { txn.Update("GET", "zz", world.Handler(0)) }},
 		{"HandleRoute", func() { txn.HandleRoute("GET", nil) }},
 		{"UpdateRoute", func() { txn.UpdateRoute("GET", nil) }},
 	}
